@@ -36,7 +36,7 @@ func vect(xs ...MalType) MalType { return Vector{Val: xs} }
 var bindNames = []string{"s0", "s1", "v0", "v1"}
 
 func template(tag string, d, w int, top bool) MalType {
-	nk := 4
+	nk := 5 // leaves: integer, symbol, unquote, splice-unquote, map literal
 	if d > 0 {
 		nk = 7
 	}
@@ -57,13 +57,16 @@ func template(tag string, d, w int, top bool) MalType {
 			vrt.Assume(false) // a splice needs an enclosing sequence
 		}
 		return lst(sym("splice-unquote"), sym(lib.Pick(tag+"/sp", []string{"s0", "s1", "v1"})))
-	case 4, 5:
+	case 4:
+		// a map literal inside a template (at any depth) is returned literally: its values are not templates
+		return HashMap{Val: map[string]MalType{NewKeyword("k"): lib.PickVal(tag+"/mv", []MalType{lst(sym("unquote"), sym("v0")), sym("zz"), lst(sym("+"), 1, 2)})}}
+	case 5, 6:
 		n := vrt.Concrete(vrt.Choice(tag+"/n", w+1))
 		elems := make([]MalType, n)
 		for i := range elems {
 			elems[i] = template(tag+"/"+string(rune('0'+i)), d-1, w, false)
 		}
-		if k == 5 {
+		if k == 6 {
 			return Vector{Val: elems}
 		}
 		if n > 0 {
@@ -74,10 +77,8 @@ func template(tag string, d, w int, top bool) MalType {
 			}
 		}
 		return List{Val: elems}
-	default:
-		// a map literal inside a template is returned literally
-		return HashMap{Val: map[string]MalType{NewKeyword("k"): lst(sym("unquote"), sym("v0"))}}
 	}
+	panic("unreachable")
 }
 
 // unquoted expressions: a bound symbol or a call with an effect
